@@ -17,9 +17,9 @@
    C17_print_command_text_injective, C17_placeholders_by_text_scanner): the scanner model in file mode on the
    string PrintNode.String() writes sends "{", the items of [tokens_of_print] and EOF (lexText at "{",
    lexLeftDelim, lexBeginTag, the expression and directive lists inside the tag, "}" -> lexRightDelim, lexText
-   at the end of the input); the parsePrint model on these items returns the command up to positions.  Not
-   covered: the command-level dispatch of parse.SoyFile (itemList -> textOrTag -> beginTag's implicit-print
-   case), which hands these items to parsePrint -- that step stays with the harness.
+   at the end of the input); the parsePrint model on these items returns the command up to positions.
+   C17_print_command_file_roundtrip goes through the file entry point: the command-level dispatch of parse.SoyFile
+   (itemList -> textOrTag -> beginTag's implicit-print case -> parsePrint) under the entry point's own budget.
    Property theorems only. *)
 (* source tie by translation: the lemmas of these files are obligations of this property *)
 From Soy Require Import Proofs.SourceTieExpr Proofs.SourceTieQuote Proofs.SourceTieAstPrint Proofs.SourceTieUnquote.
@@ -28,6 +28,8 @@ From Soy Require Import Model.Bytes Model.Num Model.Values Model.Ast Model.Token
 From Soy Require Proofs.FloatRtMain Proofs.FloatRtLex.
 From Soy Require Import Model.Outcome Model.MsgId Proofs.MsgIdProofs.
 From Soy Require Import Model.Lexer Model.Parser Proofs.LexPrintMain Proofs.LexParseText Proofs.LexPrintCmd Proofs.PrintCmdText.
+From Soy Require Import Proofs.ParserProofs Proofs.CmdParserFuel Proofs.PrintCmdFile.
+From Soy Require Import Spec.LexKeyword Proofs.LexPrint Proofs.LexKeywordProofs.
 From Soy Require Import Model.RawText Model.Parser Model.AstPrintCmd Spec.CmdSyntax Proofs.CmdRoundtripBase Proofs.CmdRoundtripRules Proofs.CmdRoundtrip.
 Open Scope N_scope.
 
@@ -93,6 +95,65 @@ Theorem C17_print_command_text_roundtrip : forall p arg dirs txt,
       exists n' st', parse_print f q (pst_init its) = POk n' st' /\ strip_pos n' = strip_pos (NPrint p arg dirs).
 Proof. exact print_command_text_roundtrip. Qed.
 Print Assumptions C17_print_command_text_roundtrip.
+
+(* THROUGH THE FILE ENTRY POINT: parse.SoyFile(String(n)).  The scanner model run on the printed string as a
+   file, then the model of parse.SoyFile (Model/Parser.v: itemList -> textOrTag -> beginTag, whose implicit-print
+   case hands the items to parsePrint -- cmd_print / cmd_print_loop / directive_args) under the ENTRY POINT'S OWN
+   BUDGET, returns a file whose one node is the print command, up to node positions.  [inlen] is len(text), as in
+   the Go code; [lexq] (the nested scanner of quoted attribute expressions, never started on this input) is any
+   scanner whose items are well-formed (lexq_wf: the scanner model is one, Proofs/LexParseBridge.v lexq_model_wf);
+   [unq] (strconv.Unquote) is arbitrary.  Ingredients: the command-level parsePrint follows the expression-level
+   parsePrint model on every successful run (Proofs/PrintCmdFile.v sim_print); the command-level parser model is
+   monotone in its budget (Proofs/CmdParserFuel.v item_list_le, every procedure of Model/Parser.v) and never runs
+   out of its own budget (Proofs/ParserProofs.v), so a tree obtained under SOME budget is the entry point's. *)
+Theorem C17_print_command_file_roundtrip : forall lexq unq p arg dirs txt,
+  lexq_wf lexq ->
+  wf_print (NPrint p arg dirs) -> lex_ok_print (NPrint p arg dirs) -> print_node (NPrint p arg dirs) = Some txt ->
+  exists items pos n' st,
+    lex_items is_letter_tbl is_digit_tbl (lex_budget txt) false txt = Ok items /\
+    po_result (soy_file (N.of_nat (length txt)) lexq unq items) = POk (NList pos [n']) st /\
+    strip_pos n' = strip_pos (NPrint p arg dirs).
+Proof. exact print_command_file_roundtrip. Qed.
+Print Assumptions C17_print_command_file_roundtrip.
+
+(* the budget lemma by itself: whatever item list and whatever until-set, two budgets that both suffice give the
+   same result (tree or error) *)
+Theorem C17_parser_budget_irrelevant : forall inlen lexq unq efuel f f' until s,
+  item_list inlen lexq unq parse_expr efuel f until s <> CFuel -> item_list inlen lexq unq parse_expr efuel f' until s <> CFuel ->
+  item_list inlen lexq unq parse_expr efuel f until s = item_list inlen lexq unq parse_expr efuel f' until s.
+Proof. exact item_list_agree. Qed.
+Print Assumptions C17_parser_budget_irrelevant.
+
+(* ---- the keyword clause of lex_ok, as a decidable predicate ----
+   lex_ok demands of every identifier the printer writes bare (function names, the first segment of a global's
+   dotted name, directive names) that it is not an entry of the scanner's keyword table: a keyword printed bare is
+   read back as its own item type (C17_ex_keyword_name: and() does not parse back).  The clause is the boolean
+   function c17_kw_clause (Spec/LexKeyword.v) over the regenerated table: an identifier satisfies lex_ok's demand
+   exactly when it has the shape of a word and c17_not_keyword holds, and lex_ok / lex_ok_print imply the clause
+   for the whole tree.  The C17 harness evaluates c17_kw_clause (the extracted definition) on every tree the real
+   parser returns; a parsed tree never has a keyword in these places, because the scanner never sends one as an
+   identifier item (evidence: histogram lex_ok-keyword-clause). *)
+Theorem C17_identifier_keyword_clause : forall w, plain_word w <-> word_shape w /\ c17_not_keyword w = true.
+Proof. exact plain_word_iff. Qed.
+Print Assumptions C17_identifier_keyword_clause.
+
+Theorem C17_keyword_clause : forall e, lex_ok e -> c17_kw_clause e = true.
+Proof. exact lex_ok_kw_clause. Qed.
+Print Assumptions C17_keyword_clause.
+
+Theorem C17_keyword_clause_print : forall n, lex_ok_print n -> c17_kw_clause n = true.
+Proof. exact lex_ok_print_kw_clause. Qed.
+Print Assumptions C17_keyword_clause_print.
+
+(* the clause is needed: a function named like a keyword prints as text that the scanner reads differently *)
+Example C17_ex_keyword_name :
+  c17_kw_clause (NFunc 0 (b "and") []) = false /\ c17_kw_clause (NFunc 0 (b "round") [NGlobal 0 (b "a.and") (VNull)]) = true /\
+  print_node (NFunc 0 (b "and") []) = Some (b "and()") /\
+  match lex_items is_letter_tbl is_digit_tbl (lex_budget (b "and()")) true (b "and()") with
+  | Ok items => match po_result (soy_expr 5 items) with POk _ _ => False | _ => True end
+  | _ => False
+  end.
+Proof. split; [vm_compute; reflexivity|]. split; [vm_compute; reflexivity|]. split; [vm_compute; reflexivity|]. vm_compute. exact I. Qed.
 
 (* two such print commands that print the same STRING are the same print command up to positions *)
 Theorem C17_print_command_text_injective : forall n1 n2 txt,
@@ -293,6 +354,21 @@ Example C17_print_command_text_nonvacuous :
   | None => False
   end.
 Proof. split; [vm_compute; reflexivity|]. vm_compute. split; reflexivity. Qed.
+(* ... and through the file entry point, by computation: the one node of the file is the command *)
+Example C17_print_command_file_nonvacuous :
+  match print_node ex_print with
+  | Some txt =>
+      match lex_items is_letter_tbl is_digit_tbl (lex_budget txt) false txt with
+      | Ok items =>
+          match po_result (soy_file (N.of_nat (length txt)) (fun _ => []) (fun _ => None) items) with
+          | POk (NList _ [n']) _ => strip_pos n' = strip_pos ex_print
+          | _ => False
+          end
+      | _ => False
+      end
+  | None => False
+  end.
+Proof. vm_compute. reflexivity. Qed.
 (* ---- extension to template bodies (the property's text speaks of expressions and print
    commands; this is the same statement for the command forms whose String() is source syntax
    the parser accepts again: raw text, print, {log}, {debugger}, {let} in both forms,
